@@ -400,14 +400,30 @@ def main():
             vendor_marks.append((n.lineno, n.left.value))
     vendor_marks = [t for _, t in sorted(vendor_marks)]
 
+    def alpha(node):
+        """source text of a node with local variable names replaced by v0, v1, ... in order of first appearance (so that renaming a
+        local variable does not change the extracted fact); module roots, builtins and attribute names are kept"""
+        keep = {'np', 'scipy', 'FlowCal', 'None', 'True', 'False', 'float', 'int', 'len', 'str', 'list', 'range', 'isinstance', 'hasattr', 'warnings', 'six',
+                'collections', 'os', 'pd', 'ExcelUIException', 'ValueError', 'data', 'channels'}
+        names = {}
+
+        class R(ast.NodeTransformer):
+            def visit_Name(self, n):
+                if n.id in keep:
+                    return n
+                if n.id not in names:
+                    names[n.id] = 'v%d' % len(names)
+                return ast.copy_location(ast.Name(id=names[n.id], ctx=n.ctx), n)
+        import copy
+        return ast.unparse(R().visit(copy.deepcopy(node)))
+
     # stats.py: for every public function the channel slicing rule and the numeric statements (everything that is not the slicing)
     stats_defs = []
     for n in trees['stats'].body:
         if isinstance(n, ast.FunctionDef) and not n.name.startswith('_'):
             body = [st for st in n.body if not (isinstance(st, ast.Expr) and isinstance(st.value, ast.Constant) and isinstance(st.value.value, str))]
-            slicing = [ast.unparse(st).replace('\n', ' ; ') for st in body if isinstance(st, ast.If) and 'data_stats' in ast.unparse(st)]
-            numeric = [ast.unparse(st) for st in body if not (isinstance(st, ast.If) and 'data_stats' in ast.unparse(st))]
-            stats_defs.append((n.name, ' | '.join(' '.join(x.split()) for x in slicing), ' ; '.join(' '.join(x.split()) for x in numeric)))
+            whole = alpha(ast.Module(body=body, type_ignores=[]))
+            stats_defs.append((n.name, ' ; '.join(' '.join(x.split()) for x in whole.split('\n'))))
 
     strip = lambda xs: [x.lstrip('_') for x in xs]
     facts = {
@@ -450,7 +466,7 @@ def main():
     L.append('def sampleKeywords : List String := [' + ', '.join(lstr(x) for x in sample_keywords) + ']')
     L.append('def fileKeywords : List String := [' + ', '.join(lstr(x) for x in file_keywords) + ']')
     L.append('def vendorMarks : List String := [' + ', '.join(lstr(x) for x in vendor_marks) + ']')
-    L.append('def statsDefinitions : List (String × String × String) := [' + ',\n  '.join('(%s, %s, %s)' % tuple(lstr(x) for x in t) for t in stats_defs) + ']')
+    L.append('def statsDefinitions : List (String × String) := [' + ',\n  '.join('(%s, %s)' % tuple(lstr(x) for x in t) for t in stats_defs) + ']')
     L.append('def samplePipelineCalls : List (String × String × String) := [' + ',\n  '.join('(%s, %s, %s)' % tuple(lstr(x) for x in t) for t in sample_calls) + ']')
     L.append('def statColumnFunctions : List (String × String × String) := [' + ',\n  '.join('(%s, %s, %s)' % tuple(lstr(x) for x in t) for t in stat_cols) + ']')
     L.append('def positiveEventsRule : List String := [' + ', '.join(lstr(x) for x in pos_rule) + ']')
